@@ -43,6 +43,7 @@ func denied(t reflect.Type) bool {
 }
 
 type filler struct {
+	src   *Gen // when set: words are drawn from this generator (28-bit residues)
 	mode  FillMode
 	seen  map[seenKey]bool
 	paths []string
@@ -104,6 +105,9 @@ func (f *filler) search(v reflect.Value, path string) {
 }
 
 func (f *filler) word(i int) uint64 {
+	if f.src != nil {
+		return f.src.U64()&(1<<28-1) | 1
+	}
 	if f.mode == FillOnes {
 		return ^uint64(0)
 	}
